@@ -43,5 +43,8 @@ def le (a b : Sev) : Bool := decide (a.rank ≤ b.rank)
 /-- `ErrorDescriptor::GreaterSeverity`: `(s < _severity) ? _severity = s : _severity` with `cur = _severity` -/
 def greater (cur s : Sev) : Sev := if s.lt cur then s else cur
 
+theorem greater_null_right (e : Sev) : greater e .null = e := by cases e <;> rfl
+theorem greater_null_left (s : Sev) : greater .null s = s := by cases s <;> rfl
+
 end Sev
 end StepModel
